@@ -6,6 +6,9 @@ From RPFT Require Import Base.Sexp Base.PyStr Base.PyStrFacts Base.Result Gen.Ta
      Flow.RowSem Comp.Compile Comp.CompileFacts Comp.CompileIds Comp.CompileInv Comp.CompileClass Comp.Refine Comp.RefineFacts.
 Import ListNotations.
 
+Section WithNames.
+Context {GN : GenNames}.
+
 Definition cuu (sc : cstate) : list id := map cn_uuid (cs_nodes sc).
 
 Lemma class_ok_same cls rt b b' : same_class b b' -> class_ok cls rt b -> class_ok cls rt b'.
@@ -72,6 +75,20 @@ Proof.
   - eapply GS_noop_router; eauto.
 Qed.
 
+(* the name maps stay related when phi grows *)
+Lemma names_mono phi phi' (sn cn : list (str * nat)) :
+  phi_le phi phi' ->
+  (forall nm, nm <> [] -> match alookup sn nm with
+                          | Some k => exists c, nth_error phi k = Some c /\ alookup cn nm = Some (fst c)
+                          | None => alookup cn nm = None end) ->
+  forall nm, nm <> [] -> match alookup sn nm with
+                         | Some k => exists c, nth_error phi' k = Some c /\ alookup cn nm = Some (fst c)
+                         | None => alookup cn nm = None end.
+Proof.
+  intros Hle H nm Hnm. specialize (H nm Hnm). destruct (alookup sn nm) as [k|]; [|exact H].
+  destruct H as (c & Hc & E). destruct (Hle k c Hc) as (c' & Hc' & Ef). exists c'. split; [exact Hc'|]. rewrite Ef. exact E.
+Qed.
+
 (* ---------------------------------------------------------------- updating a reference node with a node of its cluster *)
 Lemma Sim_set phi sr sc k n n' c i ndi nd' next' :
   Sim phi sr sc ->
@@ -81,7 +98,7 @@ Lemma Sim_set phi sr sc k n n' c i ndi nd' next' :
   (forall nd o, cluster_nodes (RowSem.update (cs_nodes sc) i nd') c = Some (nd, o) -> node_sim phi (cuu sc) n' nd o) ->
   Sim phi (RowSem.set_node sr k n') (Compile.set_node sc i nd' next').
 Proof.
-  intros [Hlen Hnodes Hdisj Hgroups Hginj Hacts Hrm Hst] Hk Hc Hin Hi Hu Hcl Hact Hnew.
+  intros [Hlen Hnodes Hdisj Hgroups Hginj Hacts Hrm Hst Hnames] Hk Hc Hin Hi Hu Hcl Hact Hnew.
   assert (Euu : map cn_uuid (RowSem.update (cs_nodes sc) i nd') = cuu sc) by (unfold cuu; eapply update_map_same; eauto).
   constructor; cbn.
   - rewrite update_length. exact Hlen.
@@ -103,6 +120,7 @@ Proof.
     + rewrite update_nth_other in Hk0 by exact Hne. eapply Hacts; eauto.
   - exact Hrm.
   - exact Hst.
+  - exact Hnames.
 Qed.
 
 (* nothing changes on the compiled side (an edge the implementation ignores) and nothing on the reference side *)
@@ -114,7 +132,7 @@ Lemma Sim_push phi sr sc n nd next' :
   Sim phi sr sc -> node_sim (phi ++ [(length (cs_nodes sc), None)]) (cuu sc ++ [cn_uuid nd]) n nd None ->
   Sim (phi ++ [(length (cs_nodes sc), None)]) (fst (RowSem.add_node sr n)) (push_node sc nd next').
 Proof.
-  intros [Hlen Hnodes Hdisj Hgroups Hginj Hacts Hrm Hst] Hnew.
+  intros [Hlen Hnodes Hdisj Hgroups Hginj Hacts Hrm Hst Hnames] Hnew.
   assert (Hbound : forall k c i, nth_error phi k = Some c -> In i (cluster_idx c) -> i < length (cs_nodes sc)).
   { intros k c i Hc Hi. assert (Hk : k < length (s_nodes sr)) by (rewrite <- Hlen; apply nth_error_Some; congruence).
     destruct (nth_error (s_nodes sr) k) as [n0|] eqn:En; [|apply nth_error_None in En; lia].
@@ -152,6 +170,7 @@ Proof.
       assert (k0 < length phi) by (apply nth_error_Some; congruence). lia.
   - exact Hrm.
   - exact Hst.
+  - apply (names_mono phi); [apply phi_le_app|exact Hnames].
 Qed.
 
 (* ---------------------------------------------------------------- groups *)
@@ -170,7 +189,7 @@ Lemma Sim_set_group phi sr sc g gr gc old :
   (forall ps k n, gr = GNoOp ps (Some k) -> nth_error (s_nodes sr) k = Some n -> rn_actions n = []) ->
   group_sim phi (cs_nodes sc) gr gc -> Sim phi (RowSem.set_group sr g gr) (set_cgroup sc g gc).
 Proof.
-  intros [Hlen Hnodes Hdisj Hgroups Hginj Hacts Hrm Hst] Hg Hnd Hnew Hact Hs. constructor; cbn; try assumption.
+  intros [Hlen Hnodes Hdisj Hgroups Hginj Hacts Hrm Hst Hnames] Hg Hnd Hnew Hact Hs. constructor; cbn; try assumption.
   - apply Forall2_update; assumption.
   - destruct (flat_map_update_split grow_node _ _ _ Hg) as [E1 E2]. rewrite E2. rewrite E1 in Hginj.
     set (A := flat_map grow_node (firstn g (s_groups sr))) in *. set (B := flat_map grow_node (skipn (S g) (s_groups sr))) in *.
@@ -198,7 +217,7 @@ Lemma Sim_add_group phi sr sc gr gc rid :
   (forall ps k, gr <> GNoOp ps (Some k)) ->
   Sim phi (fst (RowSem.add_group sr gr rid)) (add_cgroup sc gc rid).
 Proof.
-  intros [Hlen Hnodes Hdisj Hgroups Hginj Hacts Hrm Hst] Hs Hnew Hnr.
+  intros [Hlen Hnodes Hdisj Hgroups Hginj Hacts Hrm Hst Hnames] Hs Hnew Hnr.
   assert (Hgl := Forall2_length' _ _ _ Hgroups).
   constructor; cbn; try assumption.
   - apply Forall2_app_one; assumption.
@@ -248,7 +267,7 @@ Lemma Sim_implicit phi sr sc g k cls n n' k1 nd nd1 nr next' rt :
   Sim (RowSem.update phi k (k1, Some (length (cs_nodes sc)))) (RowSem.set_node sr k n')
       (set_cgroup (push_node (Compile.set_node sc k1 nd1 next') nr next') g (CGRow k1 [length (cs_nodes sc)] rt)).
 Proof.
-  intros [Hlen Hnodes Hdisj Hgroups Hginj Hacts Hrm Hst] Hk Hc Hgr Hgc Hk1 Hu Hcl Hact Hnew.
+  intros [Hlen Hnodes Hdisj Hgroups Hginj Hacts Hrm Hst Hnames] Hk Hc Hgr Hgc Hk1 Hu Hcl Hact Hnew.
   set (j := length (cs_nodes sc)) in *. set (phi' := RowSem.update phi k (k1, Some j)).
   assert (Hple : phi_le phi phi') by (eapply phi_le_update; eauto).
   assert (Euu : map cn_uuid (RowSem.update (cs_nodes sc) k1 nd1 ++ [nr]) = cuu sc ++ [cn_uuid nr]).
@@ -314,4 +333,63 @@ Proof.
     + rewrite update_nth_other in Hk0 by exact Hne. eapply Hacts; eauto.
   - exact Hrm.
   - exact Hst.
+  - apply (names_mono phi); [exact Hple|exact Hnames].
 Qed.
+
+(* the same for the node of a ROW group, whose actions may change (a row merged into the node) *)
+Lemma Sim_set_row phi sr sc k n n' c i ndi nd' next' :
+  Sim phi sr sc ->
+  nth_error (s_nodes sr) k = Some n -> nth_error phi k = Some c -> In i (cluster_idx c) ->
+  nth_error (cs_nodes sc) i = Some ndi -> cn_uuid nd' = cn_uuid ndi -> same_class (cn_body ndi) (cn_body nd') ->
+  (forall g ps, nth_error (s_groups sr) g <> Some (GNoOp ps (Some k))) ->
+  (forall nd o, cluster_nodes (RowSem.update (cs_nodes sc) i nd') c = Some (nd, o) -> node_sim phi (cuu sc) n' nd o) ->
+  Sim phi (RowSem.set_node sr k n') (Compile.set_node sc i nd' next').
+Proof.
+  intros [Hlen Hnodes Hdisj Hgroups Hginj Hacts Hrm Hst Hnames] Hk Hc Hin Hi Hu Hcl Hrow Hnew.
+  assert (Euu : map cn_uuid (RowSem.update (cs_nodes sc) i nd') = cuu sc) by (unfold cuu; eapply update_map_same; eauto).
+  constructor; cbn.
+  - rewrite update_length. exact Hlen.
+  - intros k0 n0 c0 Hk0 Hc0. rewrite Euu. destruct (Nat.eq_dec k0 k) as [->|Hne].
+    + rewrite (update_nth_same _ _ n' _ Hk) in Hk0. injection Hk0 as <-.
+      assert (c0 = c) by congruence. subst c0.
+      destruct (Hnodes k n c Hk Hc) as (nd & o & Hcn & _).
+      destruct (cluster_nodes_update_some _ i nd' ndi c nd o Hi Hcn) as (nd2 & o2 & E2).
+      exists nd2, o2. split; [exact E2|apply Hnew, E2].
+    + rewrite update_nth_other in Hk0 by exact Hne.
+      destruct (Hnodes k0 n0 c0 Hk0 Hc0) as (nd & o & Hcn & Hs). exists nd, o. split; [|exact Hs].
+      rewrite cluster_nodes_update_other; [exact Hcn|].
+      eapply (flat_map_NoDup_idx cluster_idx phi k k0 c c0 i); eauto.
+  - exact Hdisj.
+  - eapply Forall2_impl; [|exact Hgroups]. intros g g'. apply group_sim_update with (ndi := ndi); assumption.
+  - exact Hginj.
+  - intros g ps k0 n0 Hg0 Hk0. destruct (Nat.eq_dec k0 k) as [->|Hne].
+    + exfalso. exact (Hrow g ps Hg0).
+    + rewrite update_nth_other in Hk0 by exact Hne. eapply Hacts; eauto.
+  - exact Hrm.
+  - exact Hst.
+  - exact Hnames.
+Qed.
+
+(* ---------------------------------------------------------------- node names *)
+(* the row's node gets a name on both sides (the reference only records a non-blank one) *)
+Lemma Sim_names phi sr sc nm k c :
+  Sim phi sr sc -> nth_error phi k = Some c ->
+  Sim phi (push_names sr nm k) (set_names sc nm (fst c)).
+Proof.
+  intros [Hlen Hnodes Hdisj Hgroups Hginj Hacts Hrm Hst Hnames] Hc.
+  assert (E : push_names sr nm k = mkSt (s_nodes sr) (s_groups sr) (s_rowmap sr) (match nm with [] => s_names sr | _ => (nm, k) :: s_names sr end) (s_stack sr)).
+  { unfold push_names. destruct nm; [destruct sr|]; reflexivity. }
+  rewrite E. constructor; cbn [s_nodes s_groups s_rowmap s_stack cs_nodes cs_groups cs_rowmap cs_stack set_names]; try assumption.
+  cbn [s_names cs_names set_names]. intros nm0 Hnm0. specialize (Hnames nm0 Hnm0).
+  destruct nm as [|a nm'].
+  - cbn [alookup]. assert (Eb : str_eqb [] nm0 = false) by (destruct nm0; [contradiction|reflexivity]). rewrite Eb. exact Hnames.
+  - cbn [alookup]. destruct (str_eqb (a :: nm') nm0); [exists c; auto|exact Hnames].
+Qed.
+
+(* a row merged into a node gets its row id as an alias of the row it continues *)
+Lemma Sim_alias phi sr sc rid g : Sim phi sr sc -> Sim phi (alias_row sr rid g) (match rid with [] => sc | _ => set_rowmap sc rid g end).
+Proof.
+  intros [Hlen Hnodes Hdisj Hgroups Hginj Hacts Hrm Hst Hnames]. destruct rid as [|a r]; [destruct sr; constructor; assumption|].
+  constructor; cbn; try assumption. rewrite Hrm. reflexivity.
+Qed.
+End WithNames.
